@@ -247,3 +247,183 @@ fn c10_filter_multibyte_boundary() {
     expect(&spec, "b\u{e9}r01.l", Some("l"), false);
     std::mem::forget(spec);
 }
+
+// ------------------------------------------------------------------------------------------------
+// C06 / C10 / C14: collision_free_infix_for_rotated_file (timestamp namings): the name of the file
+// that is about to be created by a rotation must not collide with an existing plain or compressed
+// file, must continue the `.restart-NNNN` numbering of *this* family and infix only, and must not
+// panic on what the family itself produces (compressed restart siblings).
+//
+// Environment: one directory state per instance, seen consistently through both channels the
+// function uses: (1) `list_of_files(Equls(infix), suffix)` is replaced by its contract - "the
+// files of the directory that the family filter accepts for this infix and suffix, descending"
+// (the real `filter_files` is decided on the same names by the c14_filter_* menus) - and
+// (2) `Path::exists` answers membership in the same directory. The presence of the two *target*
+// names (`b_rT.l`, `b_rT.l.gz`) is symbolic where the instance says so; the sibling / foreign
+// names are a concrete menu. std path functions run as byte-wise models (support crate
+// `stdmodels`, validated natively against std); `format!` is a marker, see below.
+fn cfi_path(name: &str) -> PathBuf {
+    let mut p = PathBuf::from("d");
+    p.push(name);
+    p
+}
+fn ends_with_gz(n: &str) -> bool {
+    let b = n.as_bytes();
+    b.len() >= 3 && b[b.len() - 3] == b'.' && b[b.len() - 2] == b'g' && b[b.len() - 1] == b'z'
+}
+// cells 0/1: presence of the plain / compressed target (0/1); 2: suffix-less family (1) or not (0);
+// 3: number of exists() queries for other paths
+fn cfi_plain_name() -> &'static str {
+    if vs::cell_get(2) == 1 { "b_rT" } else { "b_rT.l" }
+}
+fn cfi_gz_name() -> &'static str {
+    if vs::cell_get(2) == 1 { "b_rT.gz" } else { "b_rT.l.gz" }
+}
+fn stub_exists(p: &Path) -> bool {
+    let b = p.as_os_str().as_bytes();
+    let nosfx = vs::cell_get(2) == 1;
+    let plain: &[u8] = if nosfx { b"d/b_rT" } else { b"d/b_rT.l" };
+    let gz: &[u8] = if nosfx { b"d/b_rT.gz" } else { b"d/b_rT.l.gz" };
+    if bytes_eq(b, plain) {
+        vs::cell_get(0) == 1
+    } else if bytes_eq(b, gz) {
+        vs::cell_get(1) == 1
+    } else {
+        vs::cell_inc(3);
+        false
+    }
+}
+// `format!` dispatches through a raw function pointer (`fmt::rt::Argument::fmt`); CBMC explores every
+// signature-compatible Display/Debug implementation linked into the crate (chrono's parser, io::Error,
+// ...: probed, no result in 15 min). The only format! in the function under test renders the restart
+// suffix, so it is replaced by a one-byte marker: the harness decides *whether* a restart suffix is
+// appended and - through the recording stub of `str::parse` below - *which* sibling's number is
+// continued; the rendering `+ 1` / `{:04}` itself is outside the claim.
+fn stub_format_marker(_a: std::fmt::Arguments<'_>) -> String {
+    String::from("~")
+}
+// cell 4: number of parse calls, cell 5: length of the last parsed text, cell 6: its bytes (big endian)
+fn stub_parse_rec<F: std::str::FromStr>(s: &str) -> Result<F, F::Err> {
+    vs::cell_inc(4);
+    vs::cell_set(5, s.len() as u64);
+    let b = s.as_bytes();
+    let mut w = 0u64;
+    let mut i = 0;
+    while i < b.len() && i < 8 {
+        w = (w << 8) | b[i] as u64;
+        i += 1;
+    }
+    vs::cell_set(6, w);
+    F::from_str(s)
+}
+// presence: None = symbolic, Some(x) = concrete
+fn cfi_case(nosfx: bool, p1: Option<bool>, p2: Option<bool>, sibling_next: Option<&[u8]>) {
+    vs::link_all();
+    let e1: bool = match p1 { Some(x) => x, None => kani::any() };
+    let e2: bool = match p2 { Some(x) => x, None => kani::any() };
+    vs::cell_set(0, e1 as u64);
+    vs::cell_set(1, e2 as u64);
+    vs::cell_set(2, nosfx as u64);
+    vs::cell_set(3, 0);
+    vs::cell_set(4, 0);
+    let spec = mk_spec("b", None, if nosfx { None } else { Some("l") });
+    let r = spec.collision_free_infix_for_rotated_file("rT");
+    match sibling_next {
+        // restart siblings of this infix exist: a restart suffix is appended and the numbering
+        // continues after the highest sibling (its four digits are what is parsed)
+        Some(want) => {
+            assert!(bytes_eq(r.as_bytes(), b"rT~"));
+            assert!(vs::cell_get(4) == 1 && vs::cell_get(5) == 4);
+            let w = ((want[0] as u64) << 24) | ((want[1] as u64) << 16) | ((want[2] as u64) << 8) | want[3] as u64;
+            assert!(vs::cell_get(6) == w);
+        }
+        // none: the plain infix iff neither the plain nor the compressed target exists, else a
+        // restart suffix (numbered from scratch: nothing is parsed)
+        None => {
+            if e1 || (e2 && !nosfx) {
+                assert!(bytes_eq(r.as_bytes(), b"rT~"));
+            } else if !e2 {
+                assert!(bytes_eq(r.as_bytes(), b"rT"));
+            }
+            // (suffix-less family and only `b_rT.gz` exists: not decided - the crate never produces a
+            // compressed twin of a suffix-less plain name, and probes `b_rT..gz` there; either answer
+            // is accepted)
+            assert!(vs::cell_get(4) == 0);
+        }
+    }
+    kani::cover!(e1 || p1 == Some(false), "plain target exists (where the instance allows it)");
+    kani::cover!(e2 || p2 == Some(false), "compressed target exists (where the instance allows it)");
+    kani::cover!((!e1 && !e2) || p1 == Some(true) || p2 == Some(true), "no target collision (where the instance allows it)");
+    std::mem::forget(spec);
+    std::mem::forget(r);
+}
+macro_rules! cfi_instance {
+    ($name:ident, $dirstub:ident, $nosfx:expr, $p1:expr, $p2:expr, [$($file:expr),*], $want:expr) => {
+        // contract stub of list_of_files for this instance's directory
+        fn $dirstub(_s: &FileSpec, _f: &InfixFilter, sfx: Option<&str>) -> Vec<PathBuf> {
+            let gz = match sfx {
+                Some(x) => bytes_eq(x.as_bytes(), b"gz"),
+                None => false,
+            };
+            let nosfx_all = sfx.is_none(); // suffix-less family: the plain listing has no suffix filter
+            let mut v: Vec<PathBuf> = Vec::with_capacity(6);
+            $( if nosfx_all || ends_with_gz($file) == gz { v.push(cfi_path($file)); } )*
+            if (gz || nosfx_all) && vs::cell_get(1) == 1 {
+                v.push(cfi_path(cfi_gz_name()));
+            }
+            if !gz && vs::cell_get(0) == 1 {
+                v.push(cfi_path(cfi_plain_name()));
+            }
+            v
+        }
+        #[kani::proof]
+        #[kani::unwind(28)]
+        #[kani::stub(verif_support::reexp::catch_unwind, verif_support::stub_cu)]
+        #[kani::stub(crate::parameters::file_spec::FileSpec::list_of_files, $dirstub)]
+        #[kani::stub(std::path::Path::exists, stub_exists)]
+        #[kani::stub(std::path::PathBuf::set_extension, verif_support::set_extension_model)]
+        #[kani::stub(std::path::Path::file_name, verif_support::pathm::file_name)]
+        #[kani::stub(std::path::Path::file_stem, verif_support::pathm::file_stem)]
+        #[kani::stub(std::path::Path::extension, verif_support::pathm::extension)]
+        #[kani::stub(std::fmt::format, stub_format_marker)]
+        #[kani::stub(str::parse, stub_parse_rec)]
+        fn $name() {
+            cfi_case($nosfx, $p1, $p2, $want);
+        }
+    };
+}
+// Symbolic presence of the two targets (seen consistently by listing and exists()) did not finish
+// in 10 min: the iterator chains over heap vectors of symbolic length defeat CBMC's constant
+// propagation (every downstream loop is unwound to the bound). The directory states are therefore
+// enumerated: one concrete state per instance; the solver discharges the panic / bounds / overflow
+// checks of the real code along it and the oracle below.
+// @verif prop=C06,C16 tier=probe timeout=900 bounds=timestamp-infix"rT",spec(b,suffix-l),no-restart-sibling,presence-of-b_rT.l-and-b_rT.l.gz-symbolic(consistent-in-listing-and-exists)
+// BUDGET GATE: no result in 10 min. No restart sibling, presence of the targets symbolic.
+cfi_instance!(c06_cfi_no_siblings, cfi_dir_0, false, None, None, [], None);
+// @verif prop=C06,C16 tier=quick timeout=900 bounds=timestamp-infix"rT",spec(b,suffix-l),directory{}
+// Nothing of this infix in the directory: the infix is used as is.
+cfi_instance!(c06_cfi_dir_empty, cfi_dir_00, false, Some(false), Some(false), [], None);
+// @verif prop=C06,C01 tier=quick timeout=900 bounds=directory{b_rT.l}
+// The plain target exists: a restart suffix is appended (never rename onto / truncate an existing rotated file).
+cfi_instance!(c06_cfi_dir_plain, cfi_dir_10, false, Some(true), Some(false), [], None);
+// @verif prop=C06 tier=quick timeout=900 bounds=directory{b_rT.l.gz}
+// Only the compressed target exists: a restart suffix is appended (a later compression would overwrite it otherwise).
+cfi_instance!(c06_cfi_dir_gz, cfi_dir_01, false, Some(false), Some(true), [], None);
+// @verif prop=C06 tier=probe timeout=900 bounds=directory{b_rT.restart-0000.l,b_rT.l}
+// One plain restart sibling: a restart suffix is appended, and it is the sibling's number (the four digits 0000) that is continued.
+cfi_instance!(c06_cfi_plain_sibling, cfi_dir_1, false, Some(true), Some(false), ["b_rT.restart-0000.l"], Some(b"0000"));
+// @verif prop=C06,C10 tier=probe timeout=900 bounds=directory{b_rT.restart-0000.l.gz,b_rT.l.gz}
+// One *compressed* restart sibling (what cleanup with compression leaves): no panic, its number (0000) is continued.
+cfi_instance!(c06_cfi_gz_sibling, cfi_dir_2, false, Some(false), Some(true), ["b_rT.restart-0000.l.gz"], Some(b"0000"));
+// @verif prop=C06 tier=probe timeout=900 bounds=directory{b_rT.restart-0001.l,b_rT.restart-0000.l.gz,b_rT.l.gz}
+// Mixed plain and compressed siblings: the highest number (0001) is continued.
+cfi_instance!(c06_cfi_mixed_siblings, cfi_dir_3, false, Some(false), Some(true), ["b_rT.restart-0001.l", "b_rT.restart-0000.l.gz"], Some(b"0001"));
+// @verif prop=C14,C06 tier=probe timeout=900 bounds=directory{b_rT.restart-0005.x.gz}(foreign:-other-inner-suffix;-the-.gz-listing-does-not-look-inside)
+// A foreign compressed file with another inner suffix that the .gz listing lets through does not influence the name chosen.
+cfi_instance!(c14_cfi_foreign_ignored, cfi_dir_4, false, Some(false), Some(false), ["b_rT.restart-0005.x.gz"], None);
+// @verif prop=C06,C16 tier=probe timeout=900 bounds=spec-without-suffix,directory{b_rT.restart-0002,b_rT.restart-0001.gz,b_rT}
+// Family without suffix: siblings are recognised, plain and compressed; the highest (0002) is continued.
+cfi_instance!(c06_cfi_nosuffix_siblings, cfi_dir_5, true, Some(true), Some(false), ["b_rT.restart-0002", "b_rT.restart-0001.gz"], Some(b"0002"));
+// @verif prop=C06 tier=probe timeout=900 bounds=spec-without-suffix,no-restart-sibling,presence-of-b_rT-symbolic
+// Family without suffix, no sibling: collision decided by the presence of b_rT.
+cfi_instance!(c06_cfi_nosuffix_none, cfi_dir_6, true, None, Some(false), [], None);
